@@ -66,6 +66,13 @@ def r1_gate(ctx):
                     n += 1
                     R.check(b.dominates(some_t, bi), "C11.R1", "after-acquire:future:%s" % fkey(cb).split("::")[-1], "the serving future is built only with a connection slot", "a future that serves the request is built without a connection slot", "%s:%d" % (b.file, st["sp"][0]))
     R.floor("C11.R1", n, 6, "serving constructs in TowerServiceNoHttp::call")
+    # ... and that is the only admission point: nothing else in the server takes a slot or builds a ConnectionState (a
+    # slot given back after the handshake and taken again once the upgrade completed leaves a window in which an admitted
+    # connection holds no slot: another one is admitted in its place, and one of the two is later dropped without a 429)
+    others = [c for c in F.all_calls(r"ConnectionGuard::try_acquire$|ConnectionState::new$", crates=(SERVER,)) if c.body.path != b.path]
+    R.check(not others, "C11.R1", "single-admission-point", "slots are taken in TowerServiceNoHttp::call only", "a connection slot is taken / a ConnectionState is built outside the admission point (%s): a connection is served for a while without holding the slot it was admitted with" % sorted({short(c.body.path) for c in others}), where(others[0]) if others else None)
+    early = [c for c in b.calls_to(r"^std::mem::drop$|^core::mem::drop$") if c.args and op_place(c.args[0]) is not None and b.locals[op_place(c.args[0])["l"]]["ty"] in ("jsonrpsee_server::server::ConnectionState", "tokio::sync::OwnedSemaphorePermit")]
+    R.check(not early, "C11.R1", "slot-not-given-back-at-admission", "the admission point hands the slot on, it does not release it", "TowerServiceNoHttp::call drops the ConnectionState / permit it has just acquired: what it starts afterwards runs without a connection slot", where(early[0]) if early else None)
     # None arm: 429 only
     reach = {x for x in (b.reach_from(none_t) | {none_t}) if b.dominates(none_t, x)}
     futs = []
